@@ -303,7 +303,8 @@ def families(tier, ua):
                              script_=script(read={'mode': 'read'}))
                     yield 'E3.invalid-cl', req
                     continue
-                for scheme in ('http', 'https'):
+                scheme_matters = name in ('Host', 'Forwarded', 'X-Forwarded-Proto', 'X-Forwarded-Host', 'X-Forwarded-For', 'X-Real-IP')
+                for scheme in (('http', 'https') if thorough or scheme_matters else ('http',)):
                     server = ['falconframework.org', 80 if scheme == 'http' else 443]
                     yield 'E3.header', mk(ua, target='/items', headers=[[casing, v]], scheme=scheme, server=server)
     # E3b list-valued headers repeated (joined by both stacks), singleton repeats (not compared)
@@ -319,7 +320,7 @@ def families(tier, ua):
     for mask in range(32):
         hs = [[n, fvals[n]] for i, n in enumerate(FWD_FAMILY) if mask >> i & 1]
         for scheme in ('http', 'https'):
-            for port in (80, 443, 8080):
+            for port in ((80, 443, 8080) if thorough else ((80, 8080) if scheme == 'http' else (443, 8080))):
                 for hostmode in ('derived', 'custom', 'none'):
                     kw = dict(target='/items', query='a=1', scheme=scheme, server=['falconframework.org', port],
                               root_path='/api' if mask & 1 else '')
@@ -354,13 +355,15 @@ def families(tier, ua):
                     yield 'E3.conn', mk(ua, target='/items', scheme=scheme, server=server, client=client,
                                         http_version=hv, root_path=ROOTS[(server[1] + len(server[0])) % len(ROOTS)])
     # E4 bodies x content types x read modes
+    n_e4 = 0
     for ct in HEADER_POOL['Content-Type']:
         bodies = body_for(ct)
         for body in (bodies if thorough else bodies[:5]):
             for rm in READ_MODES:
                 if rm['mode'] == 'multipart' and 'multipart' not in ct:
                     continue
-                for chunks in ((None, [1], [5, 0, 7]) if thorough else (None, [3, 0, 4])):
+                n_e4 += 1
+                for chunks in ((None, [1], [5, 0, 7]) if thorough else ((None,) if n_e4 % 2 else ([3, 0, 4],))):
                     yield 'E4.body', mk(ua, method='POST', target='/items', headers=[['Content-Type', ct]], body=body,
                                         chunks=chunks if body else None, script_=script(read=rm))
     for rm in READ_MODES:
@@ -376,7 +379,7 @@ def families(tier, ua):
     # E5 response recipes
     for st in STATUSES:
         for body in BODIES:
-            for m in (('GET', 'HEAD', 'POST') if thorough else ('GET', 'HEAD')):
+            for m in (('GET', 'HEAD', 'POST') if thorough else (('GET', 'HEAD') if BODIES.index(body) % 2 == STATUSES.index(st) % 2 else ('GET',))):
                 yield 'E5.status-body', mk(ua, method=m, target='/items', script_=script(status=st, body=body))
     for ct in CONTENT_TYPES:
         for body in BODIES[:13]:
@@ -426,8 +429,8 @@ def families(tier, ua):
     #    responder (also the framework's own OPTIONS / 405 / 404 responders), early public render_body(), later changes
     for op in OPS:
         for site in SITES:
-            for m, p in (('GET', '/items'), ('OPTIONS', '/items'), ('PATCH', '/items'), ('HEAD', '/items/7'), ('GET', '/nope'),
-                         ('OPTIONS', '/sink/x')):
+            for m, p in ((('GET', '/items'), ('OPTIONS', '/items'), ('PATCH', '/items'), ('HEAD', '/items/7'), ('GET', '/nope'),
+                          ('OPTIONS', '/sink/x')) if thorough else (('GET', '/items'), ('OPTIONS', '/items'), ('PATCH', '/items'), ('GET', '/nope'))):
                 yield 'E8.ops-single', mk(ua, method=m, target=p,
                                           script_=script(ops=[[site] + op], body=['media', {'a': 1, 'l': [1]}]))
     later = [['mutate_media'], ['set_content_type', 'application/json; charset=utf-8'], ['set_media', {'new': True}], ['set_text', 'late'],
@@ -468,8 +471,9 @@ def families(tier, ua):
               {'empty_query_arg': True}, {'empty_body_arg': True}, {'content_type_param': True}, {'cookies_param': True},
               {'headers_as_dict': True}, {'explicit_cl': True}, {'content_type_conflict': True}, {'json_param': True}]
     for q in QUERIES:
-        for stl in ({'inline_query': True}, {'inline_query': True, 'params_empty': True}, {'inline_query': True, 'inline_empty': True},
-                    {'params_dict': True}, {'params_empty': True}):
+        for stl in (({'inline_query': True}, {'inline_query': True, 'params_empty': True}, {'inline_query': True, 'inline_empty': True},
+                     {'params_dict': True}, {'params_empty': True}) if thorough or '?' in q or not q else
+                    ({'inline_query': True, 'params_empty': True}, {'params_dict': True})):
             if stl.get('params_dict') and not q.replace('&', '').replace('=', '').replace(',', '').isalnum():
                 continue
             for tgt in (('/items', '/items/a%3Fb') if '?' in q or not q else ('/items',)):
